@@ -65,6 +65,10 @@ CHECKS = {
             "Parsers/printers: the real Action.Unpack, Operation.Unpack, String and MarshalText are executed symbolically on an arbitrary string (equality atom; case through an uninterpreted lower()) under both iteration orders of the name map; SMT decides 'Unpack succeeds with a iff lower(s) is a's documented name' for ALL strings (so no unknown spelling maps to any action, in particular not to allow), round trips for all named values, and that unknown values print no documented name. Text forms: only key agreement is decided - config, yaml and json tag of every exported field of the four policy structs (read from go/types of the current source) must coincide; a disagreement is confirmed by a native marshal/load round trip.",
             "NOT decided: the behaviour of go-ucfg, yaml.v2, encoding/json (reflection): quoting, defaults, numeric fidelity of 64-bit operands (JSON path rounds above 2^53 - observed, outside the claim). Assumes the libraries' tag contract.",
             "SMT-based symbolic execution of the parsers over all strings (equality atoms + uninterpreted lower(), z3 + cvc5); struct-tag agreement from go/types"),
+    "C19": (MC, "4 (C19)",
+            "The module is loaded and SSA-built under each GOOS/GOARCH pair (quick 14, thorough all of 'go tool dist list'). Per target: the 15 exported constants as go/types evaluates them equal the UAPI oracle (errno per Linux architecture); on targets whose GOARCH has a table the real compiler, executed from that target's SSA, yields program signatures identical to linux/amd64's for the same table and byte order and satisfies the SMT-decided equivalence obligations on a sample of shapes; on stub targets Supported/LoadFilter/SetNoNewPrivs make no call that leaves the library and report unsupported; a policy without explicit architecture is rejected with an error and no program on every target without a table.",
+            "Findings on foreign targets cannot be replayed natively on this host (engine results only). Program obligations apply only where a policy can be compiled through the public API (GOARCH amd64/386/arm/arm64). Trusted: go/packages+go/types, engine, oracle constants, solvers.",
+            "per-build-target go/types constant evaluation + SMT-based symbolic execution of each target's SSA (z3 + cvc5)"),
 }
 
 NOT_BUILT = "check not built yet (work in progress)"
